@@ -390,7 +390,12 @@ func (l *log) Delete(offsets map[int64]struct{}) ([]Message, int64, error) {
 	l.deleteMu.Lock()
 	defer l.deleteMu.Unlock()
 
-	return l.delete(offsets)
+	for {
+		deleted, size, err := l.delete(offsets)
+		if err != errSegmentChanged {
+			return deleted, size, err
+		}
+	}
 }
 
 func (l *log) delete(offsets map[int64]struct{}) ([]Message, int64, error) {
@@ -464,7 +469,8 @@ func (l *log) delete(offsets map[int64]struct{}) ([]Message, int64, error) {
 		newWriter, newReader, err := l.writer.Delete(rs)
 		switch {
 		case err == errSegmentChanged:
-			return nil, 0, nil
+			// a publish landed in the head since it was rewritten, Delete retries
+			return nil, 0, errSegmentChanged
 		case err != nil:
 			return nil, 0, err
 		}
